@@ -2,6 +2,7 @@
 # usage: seedtest.sh <seed-name> <prop> [<prop>...]  — applies /verif/seeded/<seed>/patch.diff to /repo, runs checks, reverts
 seed="$1"; shift
 cd /repo || exit 2
+if [ -n "$(git status --porcelain)" ]; then echo "REFUSED: /repo has uncommitted changes (seedtest reverts the working tree)"; exit 2; fi
 git apply /verif/seeded/$seed/patch.diff || { echo "APPLY-FAILED $seed"; exit 2; }
 for p in "$@"; do
   out=$(cd /verif && bin/check $p -no-evidence 2>&1); rc=$?
